@@ -151,7 +151,7 @@ var c09Exprs = []string{
 
 func TestC09(t *testing.T) {
 	hx.Main(t, "C09", func(r *hx.Run) {
-		r.Rule = "workflow composed of independently generated jobs (matrix with scalar / array-valued / object-valued rows and include, steps with ids, defaults/shell, runs-on, container, services; call jobs of remote workflows and, inside a repository, of a local reusable workflow with and without an invalid ref) with 2-8 values replaced by expressions from a pool biased towards `.*` filters and property/index access on the same paths, plus errors of many rules. Variations of the history before the observed unit: (i) delete jobs the observed job does not (transitively) need, (ii) permute the job order, (iii) delete id-less steps of the observed job / before the observed step, (iv) insert an extra step before the observed step whose only content is another expression, (v) repetition. One third of the compositions are linted with 1-2 -ignore patterns taken from their own messages. Oracle: the multiset of (line relative to the unit start, column, kind, message with embedded positions normalised) attributed to the observed job / step is identical. Non-trivial = the removed/added part has >= 1 diagnostic or contains an expression, and the observed unit has >= 1 diagnostic; distinct = pair of texts."
+		r.Rule = "workflow composed of independently generated jobs (matrix with scalar / array-valued / object-valued rows and include, steps with ids, defaults/shell, runs-on, container, services; in a third of the compositions Windows / Linux / macOS / unknown runners side by side with valid, platform-specific and unknown shell names at steps and in defaults.run; call jobs of remote workflows and, inside a repository, of a local reusable workflow with and without an invalid ref) with 2-8 values replaced by expressions from a pool biased towards `.*` filters and property/index access on the same paths, plus errors of many rules. Variations of the history before the observed unit: (i) delete jobs the observed job does not (transitively) need, (ii) permute the job order, (iii) delete id-less steps of the observed job / before the observed step, (iv) insert an extra step before the observed step whose only content is another expression, (v) repetition. One third of the compositions are linted with 1-2 -ignore patterns taken from their own messages. Oracle: the multiset of (line relative to the unit start, column, kind, message with embedded positions normalised) attributed to the observed job / step is identical. Non-trivial = the removed/added part has >= 1 diagnostic or contains an expression, and the observed unit has >= 1 diagnostic; distinct = pair of texts."
 		r.Assumptions = []string{"only unrelated parts are removed: the transitive needs closure of the observed job and steps with ids stay", "job ids are unique; needs only refer to earlier jobs"}
 		r.Check(t, "compositions", hx.N(1500, 40000), func(rt *rapid.T) {
 			g := &wf.G{T: rt, Rare: rapid.Bool().Draw(rt, "rare")}
@@ -201,6 +201,43 @@ func TestC09(t *testing.T) {
 							} else {
 								st.Set("matrix", ye.Q(rapid.SampledFrom([]string{"${{ inputs }}", "${{ github.event.inputs }}"}).Draw(rt, "mctx"), ye.Double))
 							}
+						}
+					}
+				}
+			}
+			// shell names are judged per job platform: Windows, Linux / macOS and unknown runners next to each
+			// other, with valid, platform-specific and unknown shell names at steps and in defaults
+			if rapid.IntRange(0, 2).Draw(rt, "platformshells") == 0 {
+				shellPool := []string{"bash", "sh", "sh", "pwsh", "cmd", "powershell", "python", "fish", "bash -e {0}", "zsh"}
+				for _, id := range w.RegularJobs {
+					if !rapid.Bool().Draw(rt, "setplatform") {
+						continue
+					}
+					j := w.Root.Get("jobs").Get(id)
+					if j == nil || j.Get("steps") == nil {
+						continue
+					}
+					j.Del("runs-on")
+					switch rapid.IntRange(0, 4).Draw(rt, "platform") {
+					case 0:
+						j.Set("runs-on", ye.S("windows-latest"))
+					case 1:
+						j.Set("runs-on", ye.L(ye.S("self-hosted"), ye.S("windows")))
+					case 2:
+						j.Set("runs-on", ye.S("macos-latest"))
+					case 3:
+						j.Set("runs-on", ye.S("ubuntu-latest"))
+					default:
+						j.Set("runs-on", ye.L(ye.S("self-hosted")))
+					}
+					if rapid.IntRange(0, 3).Draw(rt, "defaultshell") == 0 {
+						j.Del("defaults")
+						j.Set("defaults", ye.M().Set("run", ye.M().Set("shell", ye.S(rapid.SampledFrom(shellPool).Draw(rt, "dshell")))))
+					}
+					for _, st := range j.Get("steps").Vals {
+						if st.Kind == ye.Map && st.Get("run") != nil && rapid.Bool().Draw(rt, "stepshell") {
+							st.Del("shell")
+							st.Set("shell", ye.S(rapid.SampledFrom(shellPool).Draw(rt, "sshell")))
 						}
 					}
 				}
